@@ -586,7 +586,7 @@ def _cases(chunk):
         if n % 30 == 7:
             yield _gen_rand_case(rng, {"dense": True, "kind": ["tc", "net"][(k + n // 30) % 2]})
             continue
-        if n % 12 in (1, 9):
+        if n % 12 in (1, 7, 9):
             yield _gen_rand_case(rng, {"corner": True})
             continue
         if n % 7 == 0:
